@@ -344,7 +344,13 @@ func runC15(c *Ctx) {
 		if round == 0 {
 			p, mode = 16, int64(c.Case%3)
 		}
-		runtime.GOMAXPROCS(p)
+		if raceEnabled {
+			// the race-detector runtime of this toolchain crashed twice in 1598 cases inside runtime.GOMAXPROCS
+			// (SIGSEGV in startTheWorld, no library frame): the race build keeps the number of Ps it started with
+			p = runtime.GOMAXPROCS(0)
+		} else {
+			runtime.GOMAXPROCS(p)
+		}
 		c15YieldMode.Store(mode)
 		c.Obs(fmt.Sprintf("gomaxprocs_%d", p), 1)
 		c.Obs([]string{"yield_profile_off", "yield_profile_gosched", "yield_profile_sleep"}[mode], 1)
